@@ -63,6 +63,33 @@ def run(index, rep, tier):
               "labels are quoted when they contain a protected character, a space, or (when requested) an underscore",
               "escape_nexus_token's quoting condition `%s` no longer covers protected characters, spaces and underscores" % (norm(el.test) if el is not None else None))
 
+    # the conversion in the first branch is character-for-character
+    conv = [n for n in main.body if isinstance(n, ast.Assign) and norm(n.targets[0]) == "label"]
+    ok = False
+    how = norm(conv[0].value) if conv else None
+    if conv:
+        v = conv[0].value
+        ok = True
+        while isinstance(v, ast.Call) and isinstance(v.func, ast.Attribute) and v.func.attr == "replace":
+            a = [const_value(x) for x in v.args]
+            ok = ok and len(a) == 2 and all(isinstance(x, str) and len(x) == 1 for x in a) and a[1] == "_"
+            v = v.func.value
+        ok = ok and isinstance(v, ast.Name) and v.id == "label"
+    rep.check(ok, "R02.1", esc.qualname, "space conversion `%s`" % how, fn_where(esc, conv[0] if conv else main),
+              "unquoted labels are converted character for character (each space/tab -> one underscore)",
+              "escape_nexus_token converts an unquoted label with `%s`, which is not a character-for-character replacement by underscores: runs of spaces (or leading/trailing ones) are collapsed and the label read back differs" % how)
+
+    # ---- R02.5 symbol lookup precedence
+    rep.rule("R02.5", "taxon symbol lookup precedence: a TRANSLATE token is consulted before labels and taxon numbers, as the writer's translate tables require")
+    lk = index.function(NP + ".NexusTaxonSymbolMapper.lookup_taxon_symbol")
+    order = []
+    for n in sorted((x for x in ast.walk(lk.node) if isinstance(x, ast.Attribute)), key=lambda x: (x.lineno, x.col_offset)):
+        if n.attr in ("token_taxon_map", "label_taxon_map", "number_taxon_map", "number_taxon_label_map") and n.attr not in order:
+            order.append(n.attr)
+    rep.check(bool(order) and order[0] == "token_taxon_map" and len(order) >= 2, "R02.5", lk.qualname, "lookup order %s" % order, fn_where(lk),
+              "lookup order: %s" % order,
+              "NexusTaxonSymbolMapper.lookup_taxon_symbol consults %s: a TRANSLATE token that equals another taxon's label (numeric labels!) resolves to the wrong taxon, silently permuting the leaf-to-taxon assignment of translated NEXUS trees" % order)
+
     # ---- R02.2
     qc = cfgd["quote_chars"]
     ok = qc == {"'"} and cfgd["escape_quote_by_doubling"] is True
